@@ -129,7 +129,7 @@ carquet_status_t carquet_delta_length_encode(
     int32_t num_values,
     carquet_buffer_t* output) {
 
-    if (!values || !output || num_values <= 0) {
+    if (!values || !output || num_values < 0) {
         return CARQUET_ERROR_INVALID_ARGUMENT;
     }
 
